@@ -7,7 +7,8 @@ A case (engine=loop) is one program + one schedule:
     task <id>: <subs>          body of a task                 subs: q<id> r<id> p<id> quit startLoop destroy
     pre: <subs>                what the owner does before loop() (elt: in the ThreadInitCallback)
     thread <k>: <subs>         program of thread k (plain: foreign threads k >= 1; elt: k = 0, the owner of the EventLoopThread)
-    follow <k …> | schedule <int …>
+    follow <k …> | schedule <int …>   (+ `spurious`: with a raw schedule the scheduler may wake a condition waiter
+                                       nobody notified)
 
 The implementation is run first.  Its log gives the order in which the threads performed their visible events;
 the model is run with exactly that order (`follow`), so both sides execute the same interleaving, and the two logs
@@ -49,6 +50,7 @@ class Prog:
         self.threads = {}    # k -> [sub]
         self.follow = None
         self.schedule = None
+        self.spurious = False
 
     def copy(self):
         p = Prog()
@@ -58,6 +60,7 @@ class Prog:
         p.threads = {k: list(v) for k, v in self.threads.items()}
         p.follow = None if self.follow is None else list(self.follow)
         p.schedule = None if self.schedule is None else list(self.schedule)
+        p.spurious = self.spurious
         return p
 
     def lines(self, follow=None, schedule=None, with_schedule=True):
@@ -71,6 +74,8 @@ class Prog:
         for k in ks:
             out.append("thread %d: %s" % (k, " ".join(self.threads.get(k, []))))
         out = [l.rstrip() for l in out]
+        if self.spurious and with_schedule:
+            out.append("spurious")
         if with_schedule:
             f = self.follow if follow is None else follow
             s = self.schedule if schedule is None else schedule
@@ -102,6 +107,8 @@ def parse_case(lines):
             p.follow = [int(x) for x in w[1:]]
         elif w[0] == "schedule":
             p.schedule = [int(x) for x in w[1:]]
+        elif w[0] == "spurious":
+            p.spurious = True
         else:
             head, _, body = l.partition(":")
             hw = head.split()
@@ -212,7 +219,7 @@ def oracle(prog, lines):
     phase = "before"   # of the loop thread
     quit_seen = False
     quit_mark = None   # len(appended) at the first flag store
-    published = destroyed = started = returned = False
+    published = destroyed = started = returned = joined = False
     status = None
 
     def fail(kind, desc):
@@ -256,6 +263,8 @@ def oracle(prog, lines):
                 c = st.pop()
                 if c.kind == "r" and k == L and not c.ran:
                     fail("inline-first", "runInLoop(task %d) on the loop thread returned without having run the functor" % c.id)
+                if c.kind == "destroy" and started and not joined:
+                    fail("join", "~EventLoopThread returned without having joined the thread it started")
                 if c.kind == "startLoop" and (len(w) < 5 or w[4] != "ok"):
                     fail("startloop", "startLoop() returned %s instead of the loop constructed by the new thread" % (w[4] if len(w) > 4 else "?"))
                 wake_check()
@@ -377,6 +386,7 @@ def oracle(prog, lines):
             if not published:
                 fail("startloop", "startLoop() returned before the new thread published its loop")
         elif what == "joined":
+            joined = True
             if not destroyed:
                 fail("join", "the destructor's join returned before the loop thread destroyed its loop")
         elif what in ("point dtor:entry", "point dtor:beforeQuit"):
@@ -650,6 +660,7 @@ def _atoms(prog):
 def _rebuild(prog, atoms):
     p = Prog()
     p.mode = prog.mode
+    p.spurious = prog.spurious
     p.tasks = {i: [] for i in prog.tasks}
     p.threads = {k: [] for k in prog.threads}
     sched = []
@@ -885,7 +896,7 @@ def exhaustive_programs(which):
         return p
     if which == "C04":
         # two submitters x two tasks against a loop that has work queued before loop()
-        out.append(("2x2-submitters", prog("plain", {1: [], 2: [], 3: [], 4: [], 5: []}, ["q5"], {1: ["q1", "q2"], 2: ["q3", "q4"]}), 2))
+        out.append(("2x2-submitters", prog("plain", {1: [], 2: [], 3: [], 4: [], 5: []}, ["q5"], {1: ["q1", "q2"], 2: ["q3", "q4"]}), 3))
         # foreign runInLoop + a functor that queues from inside the drain + an I/O handler that queues
         out.append(("nested-io", prog("plain", {1: ["q3"], 2: ["q4"], 3: [], 4: []}, ["q1"], {1: ["r3", "p2"]}), 2))
         # submission racing with quit: the final drain
@@ -894,6 +905,9 @@ def exhaustive_programs(which):
         out.append(("quit-vs-loop-entry", prog("plain", {1: []}, ["q1"], {1: ["quit"]}), 3))
         out.append(("two-quitters", prog("plain", {1: ["quit"]}, [], {1: ["quit"], 2: ["q1"]}), 2))
         out.append(("start-destroy", prog("elt", {1: []}, ["q1"], {0: ["startLoop", "destroy"]}), 3))
+        sp = prog("elt", {1: []}, [], {0: ["startLoop", "q1", "destroy"]})
+        sp.spurious = True     # startLoop()'s wait may be woken without a notification
+        out.append(("start-use-destroy-spurious", sp, 2))
         out.append(("start-use-destroy", prog("elt", {1: []}, [], {0: ["startLoop", "q1", "destroy"]}), 2))
         out.append(("selfquit-vs-destroy", prog("elt", {1: ["quit"]}, [], {0: ["startLoop", "p1", "destroy"]}), 3))
     return out
@@ -919,7 +933,8 @@ def correspondence(prop, ctx, replay_file, which):
                     rn.env = ASAN_ENV
                     rn.run_progs(asan, [("replay-asan", parse_case(lines))], "replay")
             return engine
-        ctx.extra["flavours"] = ["dbg"] + (["asan (detect_stack_use_after_return)"] if which == "C05" else [])
+        with_asan = which == "C05" or not quick
+        ctx.extra["flavours"] = ["dbg"] + (["asan+ubsan (detect_stack_use_after_return=1)"] if with_asan else [])
         # 1. corpus: minimised past failures and the witnesses of the repaired defects, both properties' files
         rn.corpus(exe, ["C04", "C05"])
         if ctx.stop():
@@ -930,7 +945,7 @@ def correspondence(prop, ctx, replay_file, which):
         if ctx.stop():
             return None
         # 3. random programs and schedules
-        n = 700 if quick else 14000
+        n = 700 if quick else 24000
         done = 0
         while done < n and not ctx.stop():
             items = []
@@ -940,6 +955,7 @@ def correspondence(prop, ctx, replay_file, which):
                 p = gen_elt(ctx.rng) if elt else gen_plain(ctx.rng)
                 if i % 3 == 0:
                     p.schedule = gen_schedule(ctx.rng)
+                    p.spurious = elt and i % 2 == 0
                     tag = "random-schedule"
                 else:
                     p.follow = gen_follow(ctx.rng, p.thread_ids())
@@ -949,18 +965,19 @@ def correspondence(prop, ctx, replay_file, which):
             done += len(items)
         if ctx.stop():
             return None
-        # 4. the use-after-free detector: EventLoopThread families again under ASan with fake stacks
-        if which == "C05":
+        # 4. the use-after-free detector: the EventLoopThread families (C04, thorough: every family) again under
+        #    ASan+UBSan with fake stacks
+        if with_asan:
             asan = ctx.exe("loop_drv", "asan")
             rn.env = ASAN_ENV
-            items = [(t + ":asan", p) for t, p in sw if p.mode == "elt"]
-            for path in sorted(glob.glob(os.path.join(CORPUS, "C05", "*.case"))):
+            items = [(t + ":asan", p) for t, p in sw if p.mode == "elt" or which == "C04"]
+            for path in sorted(glob.glob(os.path.join(CORPUS, which, "*.case"))):
                 engine, lines = read_case_file(path)
                 if engine == ENGINE:
                     items.append(("corpus:asan", parse_case(lines)))
             m = 60 if quick else 1500
             for i in range(m):
-                p = gen_elt(ctx.rng)
+                p = gen_elt(ctx.rng) if which == "C05" or i % 3 == 0 else gen_plain(ctx.rng)
                 if i % 3 == 0:
                     p.schedule = gen_schedule(ctx.rng)
                 else:
@@ -974,7 +991,7 @@ def correspondence(prop, ctx, replay_file, which):
         # 5. every schedule of a few small programs within a preemption bound
         if not quick:
             for name, p, bound in exhaustive_programs(which):
-                rn.exhaustive(exe, p, bound, 12000, "exhaustive:" + name)
+                rn.exhaustive(exe, p, bound, 30000, "exhaustive:" + name)
                 if ctx.stop():
                     return None
         else:
